@@ -154,6 +154,7 @@ type DCase struct {
 	Feed       *DFeed   `json:"feed,omitempty"`
 	Items      []*DFeed `json:"items,omitempty"`
 	Names      []string `json:"names,omitempty"`
+	ViaFile    bool     `json:"via_file,omitempty"`
 	Goroutines int      `json:"goroutines,omitempty"`
 	Repeat     int      `json:"repeat,omitempty"`
 	Seed       int64    `json:"seed,omitempty"`
